@@ -154,10 +154,10 @@ def main():
     with ProcessPoolExecutor(max_workers=14) as ex:
         for pid, rel, rename, res, info in ex.map(one, jobs):
             if res != 'silent':
-                bad += res == 'FALSE-ALARM'
+                bad += res in ('FALSE-ALARM', 'ERROR')
                 print(f'{res:12} {pid} {rel} '
                       f'{rename if isinstance(rename, str) else "rename" if rename else "reformat"}: {info}')
-    print(f'{len(jobs)} variants, {bad} false alarms')
+    print(f'{len(jobs)} variants, {bad} false alarms or analysis errors')
     return 1 if bad else 0
 
 
